@@ -18,7 +18,7 @@ BASELINE_FAIL = {"TestExportingProcessWithTLS", "TestExportingProcessWithDTLS", 
 
 
 def sh(cmd, cwd, timeout=900):
-    p = subprocess.run(cmd, cwd=cwd, env=ENV, shell=True, capture_output=True, text=True, timeout=timeout)
+    p = subprocess.run(cmd, cwd=cwd, env=ENV, shell=True, capture_output=True, text=True, errors="replace", timeout=timeout)
     return p.returncode, p.stdout + p.stderr
 
 
@@ -49,7 +49,7 @@ def verify(wt, vdir, seed_id):
         demo_dst = md.group(1) + "/" + mf.group(1)
     m2 = re.search(r"go test[^\n]*-run '?\"?(\w+)", head)
     demo_run = m2.group(1) if m2 else "Test"
-    race = "-race " if "-race" in head else ""
+    race = "-race " if re.search(r"go test[^\n]*-race", head) else ""
     pkgs = sorted(set(os.path.dirname(f) for f in re.findall(r"^diff --git a/(\S+)", open(patch).read(), re.M)))
     log = []
     sh("git checkout -q -- . && git clean -fdq pkg cmd", wt)
@@ -128,7 +128,67 @@ def run(seed_id, props):
     return 0
 
 
+def lane_setup(n):
+    """A scratch copy of /repo (git worktree) and of the harness module under /tmp/lane<n>."""
+    d = f"/tmp/lane{n}"
+    os.makedirs(d, exist_ok=True)
+    if not os.path.isdir(d + "/repo"):
+        rc, out = sh(f"git worktree add --detach {d}/repo HEAD", "/repo")
+        assert rc == 0, out
+    sh("git checkout -q -- . && git clean -fdq pkg cmd", d + "/repo")
+    sh(f"git checkout -q --detach $(git -C /repo rev-parse HEAD)", d + "/repo")
+    sh(f"rsync -a --delete /verif/harness/ {d}/harness/", "/")
+    gm = open(d + "/harness/go.mod").read().replace("=> /repo", f"=> {d}/repo")
+    open(d + "/harness/go.mod", "w").write(gm)
+    return d
+
+
+def lane_run(n, seed_ids, props_override=None, tier="quick"):
+    d = lane_setup(n)
+    env = f"GOSX_REPO={d}/repo GOSX_HARNESS={d}/harness GOSX_OUT={d}"
+    for seed_id in seed_ids:
+        sd = os.path.join("/verif/seeded", seed_id)
+        meta = json.load(open(os.path.join(sd, "meta.json")))
+        props = props_override or [meta["property"]]
+        rc, out = sh(f"git apply {sd}/patch.diff", d + "/repo")
+        if rc:
+            print(seed_id, "patch does not apply:", out); continue
+        results = {}
+        try:
+            for p in props:
+                t0 = time.time()
+                try:
+                    rc, out = sh(f"{env} timeout 1500 /verif/bin/gosx check {p} --tier {tier} --no-evidence 2>&1", "/verif", timeout=1600)
+                except subprocess.TimeoutExpired:
+                    rc, out = 124, ""
+                lines = [l for l in out.splitlines() if l.startswith("VIOLATION") or l.startswith("counterexample reproduced") or l.startswith("INCONCLUSIVE")]
+                results[p] = {"exit": rc, "seconds": round(time.time() - t0, 1), "lines": [l[:400] for l in lines[:8]]}
+                print(f"{seed_id} vs {p}: exit={rc} in {results[p]['seconds']}s", flush=True)
+                for l in lines[:3]: print("    ", l[:260], flush=True)
+        finally:
+            sh("git checkout -q -- . && git clean -fdq pkg cmd", d + "/repo")
+        res_path = os.path.join(sd, "result.json")
+        old = json.load(open(res_path)) if os.path.exists(res_path) else {}
+        old.update(results)
+        json.dump(old, open(res_path, "w"), indent=1)
+    return 0
+
+
+def lane_remove(n):
+    d = f"/tmp/lane{n}"
+    sh(f"git worktree remove --force {d}/repo; git worktree prune", "/repo")
+    shutil.rmtree(d, ignore_errors=True)
+
+
 if __name__ == "__main__":
+    if sys.argv[1] == "lane":  # lane <n> <seed-id>... [-- <prop>...]
+        args = sys.argv[3:]
+        props = None
+        if "--" in args:
+            i = args.index("--"); props = args[i + 1:]; args = args[:i]
+        sys.exit(lane_run(int(sys.argv[2]), args, props))
+    if sys.argv[1] == "lane-remove":
+        lane_remove(int(sys.argv[2])); sys.exit(0)
     if sys.argv[1] == "verify":
         sys.exit(verify(sys.argv[2], sys.argv[3], sys.argv[4]))
     if sys.argv[1] == "run":
